@@ -99,7 +99,20 @@ func c23Name(a boson.Address) string {
 	return "?" + a.String()
 }
 
+var c23DistCache = map[string]*big.Int{}
+
+// XOR distance as a big integer (memoised: pure function of the two addresses)
 func c23Dist(a, b boson.Address) *big.Int {
+	key := a.ByteString() + b.ByteString()
+	if d, ok := c23DistCache[key]; ok {
+		return d
+	}
+	d := c23DistSlow(a, b)
+	c23DistCache[key] = d
+	return d
+}
+
+func c23DistSlow(a, b boson.Address) *big.Int {
 	x := make([]byte, len(a.Bytes()))
 	for i := range x {
 		x[i] = a.Bytes()[i] ^ b.Bytes()[i]
@@ -161,6 +174,9 @@ var c23ReachVals = []p2p.ReachabilityStatus{p2p.ReachabilityStatusUnknown, p2p.R
 
 func TestVerifC23(t *testing.T) {
 	maxSize := mc.Pick(4, 6)
+	// thorough: every peer independently unknown / public / private; quick: public or
+	// not public, where "not public" is unknown for even alphabet positions and private for odd ones
+	reachArity := mc.Pick(2, 3)
 	subsets := c23Subsets(len(c23Peers), maxSize)
 	// largest arity first (sharding)
 	sort.SliceStable(subsets, func(i, j int) bool { return len(subsets[i]) > len(subsets[j]) })
@@ -182,22 +198,22 @@ func TestVerifC23(t *testing.T) {
 		"peer_alphabet":       pn,
 		"connected_sets":      fmt.Sprintf("all %d subsets of the peer alphabet with <= %d members", len(subsets), maxSize),
 		"connect_order":       []string{"ascending", "descending"},
-		"peer_reachability":   "every assignment of {unknown (never reported), public, private} to the connected peers",
+		"peer_reachability":   map[int]string{2: "every assignment of {not public, public} to the connected peers (not public = never reported for p0,p2,p4,p6, reported private for p1,p3,p5,p7)", 3: "every assignment of {unknown (never reported), public, private} to the connected peers"}[reachArity],
 		"self_reachability":   c23ReachNames,
 		"targets":             tn,
 		"skip_lists":          "none, each single connected peer, all connected peers, one unconnected address, all but the last connected peer",
 		"filter_reachable":    []bool{false, true},
 		"include_self":        []bool{false, true},
-		"closest_peers_limit": "0,1,2,n,n+1",
+		"closest_peers_limit": "0,1,2,n+1 (skip lists: none, the first connected peer, all connected)",
 	}}, func(x *mc.X) {
 		set := subsets[x.Choose(len(subsets))]
 		n := len(set)
 		nm := 1
 		for i := 0; i < n; i++ {
-			nm *= 3
+			nm *= reachArity
 		}
+		desc := x.Choose(2) == 1 // before the mask: shards split on the first two choices
 		mask := x.Choose(nm)
-		desc := x.Choose(2) == 1
 
 		k, cleanup := c23NewKad(x)
 		defer cleanup()
@@ -212,8 +228,11 @@ func TestVerifC23(t *testing.T) {
 		m := mask
 		var desc2 []string
 		for _, pi := range set {
-			reach[pi] = m % 3
-			m /= 3
+			reach[pi] = m % reachArity
+			m /= reachArity
+			if reachArity == 2 && reach[pi] == 0 && pi%2 == 1 {
+				reach[pi] = 2
+			}
 		}
 		for _, pi := range order {
 			p := c23Peers[pi]
@@ -243,18 +262,19 @@ func TestVerifC23(t *testing.T) {
 		type skipList struct {
 			name  string
 			addrs []boson.Address
+			multi bool // also used for ClosestPeers
 		}
-		skips := []skipList{{"none", nil}}
+		skips := []skipList{{"none", nil, true}}
 		for _, pi := range set {
-			skips = append(skips, skipList{"only " + c23Peers[pi].name, []boson.Address{c23Peers[pi].addr}})
+			skips = append(skips, skipList{"only " + c23Peers[pi].name, []boson.Address{c23Peers[pi].addr}, pi == set[0]})
 		}
 		if n > 0 {
-			skips = append(skips, skipList{"all connected", append([]boson.Address{}, connected...)})
+			skips = append(skips, skipList{"all connected", append([]boson.Address{}, connected...), true})
 		}
 		if n > 1 {
-			skips = append(skips, skipList{"all but last", append([]boson.Address{}, connected[:n-1]...)})
+			skips = append(skips, skipList{"all but last", append([]boson.Address{}, connected[:n-1]...), false})
 		}
-		skips = append(skips, skipList{"unconnected t(b0^20)", []boson.Address{c23ExtraTargets[1].addr}})
+		skips = append(skips, skipList{"unconnected t(b0^20)", []boson.Address{c23ExtraTargets[1].addr}, false})
 
 		eligible := func(filter bool, skip []boson.Address) []boson.Address {
 			var e []boson.Address
@@ -285,7 +305,13 @@ func TestVerifC23(t *testing.T) {
 						el := eligible(filter, sk.addrs)
 						sortByDist(el, tg.addr)
 						for _, includeSelf := range []bool{false, true} {
-							what := fmt.Sprintf("ClosestPeer(target=%s, includeSelf=%v, reachable-filter=%v, skip=%s) self-reachability=%s", tg.name, includeSelf, filter, sk.name, c23ReachNames[si])
+							if !includeSelf && si > 0 {
+								continue // without includeSelf the node's own reachability is not an input (asked once)
+							}
+							tg, includeSelf, filter, sk, si := tg, includeSelf, filter, sk, si
+							what := func() string {
+								return fmt.Sprintf("ClosestPeer(target=%s, includeSelf=%v, reachable-filter=%v, skip=%s) self-reachability=%s", tg.name, includeSelf, filter, sk.name, c23ReachNames[si])
+							}
 							skipArg := append([]boson.Address{}, sk.addrs...)
 							got, err := k.ClosestPeer(tg.addr, includeSelf, topology.Filter{Reachable: filter}, skipArg...)
 							// self eligibility: certain when asked for and publicly reachable; when asked for
@@ -301,10 +327,10 @@ func TestVerifC23(t *testing.T) {
 							case errors.Is(err, topology.ErrNotFound):
 								res = "not-found"
 							default:
-								x.Fail("closest-peer-unexpected-error", "%s: %v", what, err)
+								x.Fail("closest-peer-unexpected-error", "%s: %v", what(), err)
 							}
 							if err != nil && !got.IsZero() && len(got.Bytes()) > 0 {
-								x.Fail("closest-peer-address-with-error", "%s: returned %s together with %v", what, c23Name(got), err)
+								x.Fail("closest-peer-address-with-error", "%s: returned %s together with %v", what(), c23Name(got), err)
 							}
 							selfNearer := len(el) == 0 || c23Dist(self, tg.addr).Cmp(c23Dist(el[0], tg.addr)) < 0
 							var allowed []string
@@ -343,7 +369,7 @@ func TestVerifC23(t *testing.T) {
 								for _, a := range el {
 									en = append(en, c23Name(a))
 								}
-								x.Fail(key, "%s: got %s (%s, err %v); eligible by distance %v; self nearer than all eligible: %v", what, res, c23Name(got), err, en, selfNearer)
+								x.Fail(key, "%s: got %s (%s, err %v); eligible by distance %v; self nearer than all eligible: %v", what(), res, c23Name(got), err, en, selfNearer)
 							}
 							if res == "peer" {
 								if !got.Equal(el[0]) {
@@ -360,7 +386,7 @@ func TestVerifC23(t *testing.T) {
 											key = "closest-peer-unreachable-peer-returned"
 										}
 									}
-									x.Fail(key, "%s: got %s, want %s; eligible by distance %v", what, c23Name(got), c23Name(el[0]), en)
+									x.Fail(key, "%s: got %s, want %s; eligible by distance %v", what(), c23Name(got), c23Name(el[0]), en)
 								}
 								if len(el) > 1 {
 									nontrivial = true
@@ -377,12 +403,20 @@ func TestVerifC23(t *testing.T) {
 								x.Tag("not-found-with-connected-peers")
 							}
 						}
-						// several closest peers
-						for _, limit := range []int{0, 1, 2, n, n + 1} {
-							what := fmt.Sprintf("ClosestPeers(target=%s, limit=%d, reachable-filter=%v, skip=%s)", tg.name, limit, filter, sk.name)
+						// several closest peers (self is never a candidate: asked once per Kad)
+						if si > 0 || !sk.multi {
+							continue
+						}
+						for _, limit := range []int{0, 1, 2, n + 1} {
+							tg, limit, filter, sk := tg, limit, filter, sk
+							what := func() string {
+								return fmt.Sprintf("ClosestPeers(target=%s, limit=%d, reachable-filter=%v, skip=%s)", tg.name, limit, filter, sk.name)
+							}
 							skipArg := append([]boson.Address{}, sk.addrs...)
 							got, err := k.ClosestPeers(tg.addr, limit, topology.Filter{Reachable: filter}, skipArg...)
-							x.Check(err == nil, "closest-peers-error", "%s: %v", what, err)
+							if err != nil {
+								x.Fail("closest-peers-error", "%s: %v", what(), err)
+							}
 							var gn []string
 							for _, a := range got {
 								gn = append(gn, c23Name(a))
@@ -390,24 +424,26 @@ func TestVerifC23(t *testing.T) {
 							for i, a := range got {
 								for j := 0; j < i; j++ {
 									if got[j].Equal(a) {
-										x.Fail("closest-peers-duplicate", "%s: %s returned twice: %v", what, c23Name(a), gn)
+										x.Fail("closest-peers-duplicate", "%s: %s returned twice: %v", what(), c23Name(a), gn)
 									}
 								}
 								if !a.MemberOf(el) {
-									x.Fail("closest-peers-not-eligible", "%s: %s is not eligible: %v", what, c23Name(a), gn)
+									x.Fail("closest-peers-not-eligible", "%s: %s is not eligible: %v", what(), c23Name(a), gn)
 								}
 								if i > 0 && c23Dist(got[i-1], tg.addr).Cmp(c23Dist(a, tg.addr)) > 0 {
-									x.Fail("closest-peers-order", "%s: distance decreases at position %d: %v", what, i, gn)
+									x.Fail("closest-peers-order", "%s: distance decreases at position %d: %v", what(), i, gn)
 								}
 							}
 							want := limit
 							if want > len(el) {
 								want = len(el)
 							}
-							x.Check(len(got) == want, "closest-peers-count", "%s: %d peers, want min(limit, eligible)=%d: %v", what, len(got), want, gn)
+							if len(got) != want {
+								x.Fail("closest-peers-count", "%s: %d peers, want min(limit, eligible)=%d: %v", what(), len(got), want, gn)
+							}
 							for i := range got {
 								if !got[i].Equal(el[i]) {
-									x.Fail("closest-peers-not-the-nearest", "%s: position %d is %s, want %s: %v", what, i, c23Name(got[i]), c23Name(el[i]), gn)
+									x.Fail("closest-peers-not-the-nearest", "%s: position %d is %s, want %s: %v", what(), i, c23Name(got[i]), c23Name(el[i]), gn)
 								}
 							}
 							if len(got) >= 2 {
